@@ -2,5 +2,5 @@ From Coq Require Import Extraction ExtrOcamlBasic NArith ZArith.
 From V Require Import C10.Model.
 Extraction "c10_model.ml" h_run h_root h_canon h_get h_prove2 h_prove1 h_verify2 h_verify1
   set_of2 set_of1 heqb qhash phash
-  h_range_proof2 h_range2 h_range_proof1 h_range1
+  h_range_proof2 h_range2 h_range_proof1 h_range1 h_range2_cert z_rpc_slot
   z_verify2 z_verify1 z_verifyW z_erase_set z_of_path bits_of_Z not_forged result_is N.of_nat Z.of_N.
